@@ -243,6 +243,9 @@ impl<'tcx> Dumper<'tcx> {
             ty::Adt(def, args) => {
                 v.push(("k", J::s("adt")));
                 v.push(("def", J::s(self.path(def.did()))));
+                if def.did().is_local() {
+                    v.push(("udef", J::s(self.tcx.def_path(def.did()).to_string_no_crate_verbose())));
+                }
                 v.push(("local", J::Bool(def.did().is_local())));
                 let a = self.gargs(args);
                 v.push(("args", a));
@@ -326,6 +329,7 @@ impl<'tcx> Dumper<'tcx> {
         let tcx = self.tcx;
         let adt = tcx.adt_def(did);
         let mut v: Vec<(&str, J)> = vec![("path", J::s(self.path(did)))];
+        v.push(("upath", J::s(tcx.def_path(did).to_string_no_crate_verbose())));
         v.push((
             "kind",
             J::s(if adt.is_enum() {
@@ -644,11 +648,17 @@ impl<'tcx> Dumper<'tcx> {
         let mut items = vec![];
         for &it in tcx.associated_item_def_ids(did) {
             let ai = tcx.associated_item(it);
-            items.push(J::obj(vec![
+            let mut iv = vec![
                 ("path", J::s(self.path(it))),
                 ("name", J::s(ai.name().to_string())),
                 ("kind", J::s(format!("{:?}", tcx.def_kind(it)))),
-            ]));
+            ];
+            if matches!(tcx.def_kind(it), DefKind::AssocTy) {
+                let t = tcx.type_of(it).instantiate_identity().skip_norm_wip();
+                iv.push(("ty_s", J::s(format!("{}", t))));
+                iv.push(("ty", J::Int(self.ty(t) as i128)));
+            }
+            items.push(J::obj(iv));
         }
         v.push(("items", J::Arr(items)));
         J::obj(v)
